@@ -33,8 +33,27 @@ impl Dt {
     pub fn is_float(self) -> bool { self == Dt::F }
 }
 
-#[derive(Clone, Copy, Debug, PartialEq, Eq)]
-pub enum Decl { Fixed, Sym, NoShape }
+/// Declaration of one dimension in a ValueInfoProto: `dim_value`, `dim_param`, or neither
+/// (an unnamed dynamic dimension, written `?`).
+#[derive(Clone, Debug, PartialEq, Eq)]
+pub enum DimDecl { Fixed(usize), Named(String), Unnamed }
+#[derive(Clone, Debug, PartialEq, Eq)]
+pub enum Decl { Fixed, Sym, NoShape, Dims(Vec<DimDecl>) }
+impl Decl {
+    pub fn text(&self) -> String {
+        match self {
+            Decl::Fixed => "fixed".into(), Decl::Sym => "sym".into(), Decl::NoShape => "none".into(),
+            Decl::Dims(ds) => format!("d:{}", if ds.is_empty() { "-".to_string() } else { ds.iter().map(|d| match d { DimDecl::Fixed(n) => n.to_string(), DimDecl::Named(s) => s.clone(), DimDecl::Unnamed => "?".into() }).collect::<Vec<_>>().join(",") }),
+        }
+    }
+    pub fn parse(t: &str) -> Decl {
+        match t {
+            "fixed" => Decl::Fixed, "sym" => Decl::Sym, "none" => Decl::NoShape,
+            _ => { let body = t.strip_prefix("d:").unwrap_or("-");
+                   Decl::Dims(if body == "-" { vec![] } else { body.split(',').map(|d| if d == "?" { DimDecl::Unnamed } else if let Ok(n) = d.parse::<usize>() { DimDecl::Fixed(n) } else { DimDecl::Named(d.to_string()) }).collect() }) }
+        }
+    }
+}
 
 #[derive(Clone, Debug)]
 pub struct InSpec { pub name: String, pub dt: Dt, pub shape: Vec<usize>, pub decl: Decl }
@@ -49,7 +68,7 @@ pub struct NodeSpec { pub op: String, pub name: String, pub ins: Vec<String>, pu
 pub struct Spec {
     pub exact: bool,
     /// emit value_info (shape + dtype of every intermediate, learned from a run of the unoptimized model)
-    pub vi: bool,
+    pub vi: u8,
     pub focus: String,
     pub tag: String,
     pub inputs: Vec<InSpec>,
@@ -76,9 +95,9 @@ fn parse_vals(s: &str) -> Vec<f64> { if s == "_" { vec![] } else { s.split(',').
 
 impl Spec {
     pub fn to_line(&self) -> String {
-        let mut items = vec![format!("M exact={} vi={} tag={} focus={}", self.exact as u8, self.vi as u8, if self.tag.is_empty() { "-" } else { &self.tag }, if self.focus.is_empty() { "-" } else { &self.focus })];
+        let mut items = vec![format!("M exact={} vi={} tag={} focus={}", self.exact as u8, self.vi, if self.tag.is_empty() { "-" } else { &self.tag }, if self.focus.is_empty() { "-" } else { &self.focus })];
         for i in &self.inputs {
-            items.push(format!("I {} {} {} {}", i.name, i.dt.ch(), shape_str(&i.shape), match i.decl { Decl::Fixed => "fixed", Decl::Sym => "sym", Decl::NoShape => "none" }));
+            items.push(format!("I {} {} {} {}", i.name, i.dt.ch(), shape_str(&i.shape), i.decl.text()));
         }
         for c in &self.consts { items.push(format!("C {} {} {} {}", c.name, c.dt.ch(), shape_str(&c.shape), vals_str(&c.vals))); }
         for n in &self.nodes {
@@ -108,10 +127,10 @@ impl Spec {
             match t[0] {
                 "M" => for kv in &t[1..] {
                     let (k, v) = kv.split_once('=').unwrap();
-                    match k { "exact" => s.exact = v == "1", "vi" => s.vi = v == "1", "focus" => s.focus = if v == "-" { String::new() } else { v.to_string() }, "tag" => s.tag = v.to_string(), _ => {} }
+                    match k { "exact" => s.exact = v == "1", "vi" => s.vi = v.parse().unwrap_or(0), "focus" => s.focus = if v == "-" { String::new() } else { v.to_string() }, "tag" => s.tag = v.to_string(), _ => {} }
                 },
                 "I" => s.inputs.push(InSpec { name: t[1].into(), dt: Dt::from_ch(t[2]), shape: parse_shape(t[3]),
-                                               decl: match t[4] { "fixed" => Decl::Fixed, "sym" => Decl::Sym, _ => Decl::NoShape } }),
+                                               decl: Decl::parse(t[4]) }),
                 "C" => s.consts.push(ConstSpec { name: t[1].into(), dt: Dt::from_ch(t[2]), shape: parse_shape(t[3]), vals: parse_vals(t[4]) }),
                 "N" => {
                     let ins = if t[3] == "_none" { vec![] } else { t[3].split(',').map(|x| if x == "_" { String::new() } else { x.to_string() }).collect() };
@@ -188,8 +207,8 @@ fn attr_proto(name: &str, v: &Attr) -> Vec<u8> {
     a
 }
 
-/// ValueInfoProto; `dims`: None = no shape field; Some(dims) with Ok(n) fixed / Err(name) symbolic.
-fn value_info(name: &str, dt: Option<Dt>, dims: Option<&[Result<usize, String>]>) -> Vec<u8> {
+/// ValueInfoProto; `dims`: None = no shape field.
+fn value_info(name: &str, dt: Option<Dt>, dims: Option<&[DimDecl]>) -> Vec<u8> {
     let mut v = vec![];
     f_str(1, name, &mut v);
     if let Some(dt) = dt {
@@ -199,7 +218,7 @@ fn value_info(name: &str, dt: Option<Dt>, dims: Option<&[Result<usize, String>]>
             let mut sh = vec![];
             for d in dims {
                 let mut dim = vec![];
-                match d { Ok(n) => f_varint(1, *n as u64, &mut dim), Err(s) => f_str(2, s, &mut dim) }
+                match d { DimDecl::Fixed(n) => f_varint(1, *n as u64, &mut dim), DimDecl::Named(s) => f_str(2, s, &mut dim), DimDecl::Unnamed => {} }
                 f_bytes(1, &dim, &mut sh);
             }
             f_bytes(2, &sh, &mut tt);
@@ -229,10 +248,11 @@ impl Spec {
         f_str(2, "g", &mut g);
         for c in &self.consts { f_bytes(5, &tensor_proto(c), &mut g); }
         for i in &self.inputs {
-            let dims: Option<Vec<Result<usize, String>>> = match i.decl {
+            let dims: Option<Vec<DimDecl>> = match &i.decl {
                 Decl::NoShape => None,
-                Decl::Fixed => Some(i.shape.iter().map(|d| Ok(*d)).collect()),
-                Decl::Sym => Some(i.shape.iter().enumerate().map(|(k, d)| if k % 2 == 0 { Err(format!("{}_d{}", i.name, k)) } else { Ok(*d) }).collect()),
+                Decl::Fixed => Some(i.shape.iter().map(|d| DimDecl::Fixed(*d)).collect()),
+                Decl::Sym => Some(i.shape.iter().enumerate().map(|(k, d)| if k % 2 == 0 { DimDecl::Named(format!("{}_d{}", i.name, k)) } else { DimDecl::Fixed(*d) }).collect()),
+                Decl::Dims(ds) => Some(ds.clone()),
             };
             f_bytes(11, &value_info(&i.name, Some(i.dt), dims.as_deref()), &mut g);
         }
@@ -240,7 +260,9 @@ impl Spec {
         if let Some(infos) = infos {
             for (name, dt, shape) in infos {
                 if self.outputs.contains(name) || self.inputs.iter().any(|i| &i.name == name) { continue; }
-                let dims: Vec<Result<usize, String>> = shape.iter().map(|d| Ok(*d)).collect();
+                // vi = 2: some dimensions of the intermediates are declared as unnamed dynamic dims
+                let h = name.bytes().fold(0usize, |a, b| a.wrapping_mul(31).wrapping_add(b as usize));
+                let dims: Vec<DimDecl> = shape.iter().enumerate().map(|(k, d)| if self.vi == 2 && (h + 3 * k) % 4 == 0 { DimDecl::Unnamed } else { DimDecl::Fixed(*d) }).collect();
                 f_bytes(13, &value_info(name, Some(*dt), Some(&dims)), &mut g);
             }
         }
@@ -401,8 +423,8 @@ pub fn mode_of(k: u8) -> ShapeInferenceMode { match k { 0 => ShapeInferenceMode:
 pub struct RunAll { pub outcomes: Vec<Outcome>, pub dumps: Vec<Option<String>>, pub infos: ValueInfos, pub varies: Vec<bool> }
 
 pub fn run_all(spec: &Spec) -> RunAll {
-    let infos = if spec.vi { learn_infos(spec) } else { vec![] };
-    let bytes = spec.to_onnx(if spec.vi { Some(&infos) } else { None });
+    let infos = if spec.vi > 0 { learn_infos(spec) } else { vec![] };
+    let bytes = spec.to_onnx(if spec.vi > 0 { Some(&infos) } else { None });
     let mut outcomes = vec![];
     let mut dumps = vec![];
     for (opt, mode) in CONFIGS {
